@@ -133,8 +133,10 @@ def chunks (m : Nat) (data : List XR) (count : Nat) : List Vec :=
 
 /-- `Data.get_scores(field, 0, axis.All())` for a single input with `dim_agg_*` set: load the
 field's array, pre-aggregate it over the input's FULL series, derive the field, then cut to the
-selected times / lead times.  `none` for the quantile field: its value does not come from the
-pre-aggregated array (see `FieldKind.usesPreaggregated`) and the estimator belongs to C08. -/
+selected times / lead times.  `none` for the quantile field: since the repair of data.py:543 it is
+`np.quantile(pre-aggregated members, q, method="normal_unbiased")`; that estimator belongs to C08 and
+is not repeated here (the op is judged by the oracle, the model replies UNMODELLED).
+Several inputs, PIT, other-score fields: Model/PreaggData.lean. -/
 def dataScore (f : Vec → Option XR) (scale : XR) (k : Nat) (h : XR) (times leads : List XR)
     (obs fcst ens : Arr) (field : FieldSel) (selT selL : Option (List XR)) : Option (Option Arr) :=
   let coords := if k = 0 then times else leads
